@@ -682,6 +682,8 @@ func checkC02(r *Run) {
 	literalBytesRule(r, "R5")
 	r.Rule("R6", "quoted strings: the string scanners never step over a closing quote unexamined (only the \\\" escape of double-quoted strings does), every way round their loop has compared the current byte with the closing quote, back-quoted strings are returned raw and double-quoted ones with \\\" replaced by a quote", 2)
 	stringScannerRuleSSA(r, "R6")
+	r.Rule("R7", "the template text reaches the lexer as it was given: from the entry points (NewTemplate, Parse, Render, the partial helper) over Template.Input and parser.Parse to the lexer's input every hop hands on a parameter, a text field or bytes read from outside - never the result of a call that rewrites the text", 1)
+	textPipelineRule(r, "R7")
 }
 
 func topLevelWriteRule(r *Run, rule string) {
